@@ -89,6 +89,34 @@ where
     Handle: Clone,
     Sink: TreeSink<Handle = Handle>,
 {
+    /// The "anything else" steps of the "in table text" insertion mode: insert the pending table
+    /// character tokens (foster-parented through the in-body rules if any of them is not white
+    /// space) and return the original insertion mode, in which the current token is to be processed.
+    pub(crate) fn flush_pending_table_text(&self) -> InsertionMode {
+        let pending = self.pending_table_text.take();
+        let contains_nonspace = pending.iter().any(|&(split, ref text)| match split {
+            SplitStatus::Whitespace => false,
+            SplitStatus::NotWhitespace => true,
+            SplitStatus::NotSplit => any_not_whitespace(text),
+        });
+
+        if contains_nonspace {
+            self.sink.parse_error(Borrowed("Non-space table text"));
+            for (split, text) in pending.into_iter() {
+                match self.foster_parent_in_body(Token::Characters(split, text)) {
+                    ProcessResult::Done => (),
+                    _ => panic!("not prepared to handle this!"),
+                }
+            }
+        } else {
+            for (_, text) in pending.into_iter() {
+                self.append_text(text);
+            }
+        }
+
+        self.orig_mode.take().unwrap()
+    }
+
     /// Process an HTML token.
     ///
     /// <https://html.spec.whatwg.org/multipage/parsing.html#parsing-main-inhtml>
@@ -1149,28 +1177,8 @@ where
                 },
 
                 token => {
-                    let pending = self.pending_table_text.take();
-                    let contains_nonspace = pending.iter().any(|&(split, ref text)| match split {
-                        SplitStatus::Whitespace => false,
-                        SplitStatus::NotWhitespace => true,
-                        SplitStatus::NotSplit => any_not_whitespace(text),
-                    });
-
-                    if contains_nonspace {
-                        self.sink.parse_error(Borrowed("Non-space table text"));
-                        for (split, text) in pending.into_iter() {
-                            match self.foster_parent_in_body(Token::Characters(split, text)) {
-                                ProcessResult::Done => (),
-                                _ => panic!("not prepared to handle this!"),
-                            }
-                        }
-                    } else {
-                        for (_, text) in pending.into_iter() {
-                            self.append_text(text);
-                        }
-                    }
-
-                    ProcessResult::Reprocess(self.orig_mode.take().unwrap(), token)
+                    let orig_mode = self.flush_pending_table_text();
+                    ProcessResult::Reprocess(orig_mode, token)
                 },
             },
 
